@@ -73,3 +73,13 @@ func VerifKCPUseAll(k *KCP) (held int) {
 	}
 	return
 }
+
+// BufIDs returns VerifPoolID of every packet stored in the decoder's shard sets (any order).
+func (v *VerifFECDecoder) BufIDs() (ids []int) {
+	for _, h := range v.d.shardSet {
+		for _, p := range h.elements {
+			ids = append(ids, VerifPoolID(p))
+		}
+	}
+	return
+}
